@@ -7,7 +7,7 @@ instead of `try_for_each`.
 Only the shapes are modelled (which arm runs the closure, what is wrapped in what, when a loop ends); that is all
 the rules look at.  Anything not recognised is left as the call it was (the closure then stays opaque, as before).
 
-    Result:  map  map_err  and_then  or_else  unwrap_or_else  is_ok_and  is_err_and  map_or
+    Result:  map  map_err  and_then  or_else  unwrap_or_else  is_ok_and  is_err_and  map_or  inspect  inspect_err
     Option:  map  and_then  or_else  ok_or_else  unwrap_or_else  is_some_and  is_none_or  map_or
     bool:    then
     Iterator (consumers, as loops over `next`):  for_each  try_for_each  any  all  find_map  fold  try_fold
@@ -205,6 +205,30 @@ def _expand_one(fx, fn, bi, t, blocks, locals_):
         return l, ga, b0
 
     # ---------------- Result ----------------
+    if o.startswith(R) and o[len(R):] in ("inspect_err", "inspect") and len(args) == 2:
+        # the closure looks at a reference to the payload; the Result passes through unchanged
+        m = o[len(R):]
+        cal = _callee_of(fx, fn, t, 1)
+        st = start("res")
+        if cal is None or st is None:
+            return False
+        r, (T, E), b0 = st
+        ok_b, err_b = B.block(), B.block()
+        B.switch_discr(b0, r, RES, RES_V, tys[0], {"Ok": ok_b, "Err": err_b})
+        hit, other = (err_b, ok_b) if m == "inspect_err" else (ok_b, err_b)
+        var, PT = ("Err", E) if m == "inspect_err" else ("Ok", T)
+        ref = B.local("&" + PT)
+        B.stmt(hit, ref, {"k": "ref", "mut": False, "pl": {"l": r, "p": [{"dc": var}, {"f": 0}]}})
+        u = B.local("()")
+        k = B.block()
+        B.call_fnlike(hit, cal, [{"mv": {"l": ref}}], ["&" + PT], u, "()", k)
+        B.stmt(k, dest, {"k": "use", "op": {"mv": {"l": r}}})
+        B.goto(k, end)
+        B.stmt(other, dest, {"k": "use", "op": {"mv": {"l": r}}})
+        B.goto(other, end)
+        blocks[bi]["term"] = {"k": "goto", "target": b0, "span": t["span"], "expanded": o}
+        return True
+
     if o.startswith(R) and o[len(R):] in ("map", "map_err", "and_then", "or_else", "unwrap_or_else", "is_ok_and", "is_err_and", "map_or"):
         m = o[len(R):]
         ci = 2 if m == "map_or" else 1
